@@ -314,6 +314,11 @@ def rule_merge(ck: Check, repo: Repo, rid: str = "R3") -> None:
             ya = "?"
         ys = sorted({m for k in d for m in re.findall(r"\w+__after_loop", k)} | set(re.findall(r"\w+__after_loop", a)))
         Y = ys[0] if len(ys) == 1 else None
+        if Y is None and not any(isinstance(n, ast.AugAssign) for n in ast.walk(out_loop)):
+            # the years of a group are not accumulated by the `years += …` loop this table is stated for (a comprehension, a helper
+            # that computes the range): another way of computing the same range - not decided
+            raise AnalysisError("merge_copyright_lines: the years of a group are not gathered by the accumulating loop this rule models"
+                                " (shape not enumerated): whether the merged range spans every stated year is not decided")
         hy = next((v for k, v in d.items() if Y and k.split("::")[-1] == f"?{Y}"), None)
         sm = next((v for k, v in d.items() if Y and k.split("::")[-1] in (f"?min({Y}) == max({Y})", f"?max({Y}) == min({Y})", f"?len(set({Y})) == 1")), None)
         if hy is False:
